@@ -590,6 +590,10 @@ def gen_cells_c17(rng, n, with_backend=False):
         if kk == 'raw' and not km['flat']:
             km = dict(km); km['flat'] = True
         pool = [v for v in STABLE_VALUES if not (kk == 'raw' and isinstance(v, (list, dict)))]
+        if with_backend:
+            # (a directory archive names 1, 1.0 and True apart although they are one key in memory - recorded C03
+            # finding; sessions are judged on values that do not collide that way)
+            pool = [v for v in pool if not (type(v) in (float, bool) and v in (1.0, 2.0, True))]
         calls = []
         for _ in range(6):
             asg = keymon.assignment(rng, spec, pool)
